@@ -242,6 +242,8 @@ def run():
     nuni = len(cases)
     for i in range(1200 if QUICK else 80000):
         a = gen.random_abstract(rng, N=rng.randint(2, 7), K=rng.randint(1, 5), max_edges=12, nsites=4, nmuts=4)
+        if i % 3 == 2:       # node ids in no particular order (ids carry no meaning: parents with smaller ids than children, samples anywhere)
+            a = gen.permute_nodes(a, random.Random(SEED * 1000003 + i))
         cases.append(drive(a, rng))
     for c in [c for c in cases if "error" in c]:
         chk.note_case(c["a"], True)
